@@ -25,7 +25,8 @@ JOBS = [
          replace=['delta_decoder_read_block'], min_loop_obligations=4, trusted=[BITPACK_STUB], tier='thorough', **D8),
     dict(name='c08_delta_read_mini_block_logic', replayer=RP_DELTA, entry='h_read_mini_block', enforce='delta_decoder_read_mini_block',
          replace=['delta_decoder_read_block'], min_loop_obligations=4, trusted=[BITPACK_STUB],
-         select=r'^delta_decoder_read_mini_block\.(\d+|postcondition\.\d+|assertion\.\d+) ', **D8),
+         select=r'^delta_decoder_read_mini_block\.(\d+|postcondition\.\d+|assertion\.\d+) ',
+         **dict(D8, props=['C08', 'C11', 'C12'])),   # the value relation (min_delta + zero-extended word) is a C11/C12 fact as well
     dict(name='c08_delta_decoder_next', replayer=RP_DELTA, entry='h_decoder_next', enforce='delta_decoder_next',
          replace=['delta_decoder_read_mini_block'], **D8),
     dict(name='c08_delta_decode_int32', replayer=RP_DELTA, entry='h_decode_int32', enforce='carquet_delta_decode_int32',
